@@ -6,6 +6,8 @@ ASAN_HEAD = re.compile(r"==\d+==\s*ERROR: (AddressSanitizer|LeakSanitizer): ([A-
 UBSAN_HEAD = re.compile(r"^(\S+?):(\d+):(\d+): runtime error: (.*)$")
 EIGEN_HEAD = re.compile(r"VERIF-EIGEN-ASSERT (\S+?):(\d+) (.*)")
 MARK = re.compile(r"^VH-BEGIN (\d+)")
+TSAN_HEAD = re.compile(r"WARNING: ThreadSanitizer: ([a-z\- ]+?)(?: \(pid=\d+\))?\s*$")
+TSAN_FRAME = re.compile(r"^\s*#(\d+) (.+?) (/[^\s:]+|<null>)(?::\d+)*(?: \(.*\))?\s*$")
 VG_HEAD = re.compile(r"^==\d+== (Invalid (?:read|write) of size \d+|Conditional jump or move depends on uninitialised value\(s\)|Use of uninitialised value of size \d+|Invalid free.*|Mismatched free.*|Syscall param .* uninitialised.*|Source and destination overlap.*)")
 VG_FRAME = re.compile(r"^==\d+==\s+(?:at|by) 0x[0-9A-F]+: (.+?) \((?:in )?([^)]*)\)")
 
@@ -59,8 +61,11 @@ def parse_text(txt):
             case = int(m.group(1)); i += 1; continue
         head = None
         m = ASAN_HEAD.search(l)
+        mt = TSAN_HEAD.search(l)
         if m:
             head = ("asan", m.group(2))
+        elif mt:
+            head = ("tsan", mt.group(1).strip().replace(" ", "-"))
         else:
             m = UBSAN_HEAD.match(l)
             if m:
@@ -77,14 +82,23 @@ def parse_text(txt):
             i += 1; continue
         frames, block = [], [l]
         j = i + 1
-        while j < len(lines) and j < i + 80:
+        while j < len(lines) and j < i + (200 if head[0] == "tsan" else 80):
             fm = FRAME.match(lines[j])
             vm = VG_FRAME.match(lines[j])
-            if fm:
+            tm = TSAN_FRAME.match(lines[j]) if head[0] == "tsan" else None
+            if head[0] == "tsan" and lines[j].startswith("=================="):
+                if frames:
+                    break
+            if tm and not fm:
+                frames.append((tm.group(2), tm.group(3))); block.append(lines[j])
+            elif fm:
                 frames.append((fm.group(2), fm.group(3) or "")); block.append(lines[j])
             elif vm:
                 frames.append((vm.group(1), vm.group(2))); block.append(lines[j])
-            elif frames and (lines[j].strip() == "" or lines[j].startswith("==") and "==    " not in lines[j] and not VG_FRAME.match(lines[j])):
+            elif head[0] != "tsan" and frames and (lines[j].strip() == "" or lines[j].startswith("==") and "==    " not in lines[j] and not VG_FRAME.match(lines[j])):
+                break
+            elif head[0] == "tsan" and lines[j].startswith("SUMMARY: ThreadSanitizer"):
+                block.append(lines[j]); j += 1
                 break
             elif MARK.match(lines[j]) or ASAN_HEAD.search(lines[j]) or UBSAN_HEAD.match(lines[j]):
                 break
